@@ -1017,10 +1017,22 @@ namespace detail {
             }
             if (lhs.is_int64() && rhs.is_int64())
             {
+                if (rhs.template as<int64_t>() == 0) // integer division by zero is undefined behaviour
+                {
+                    return Json::null();
+                }
+                if (rhs.template as<int64_t>() == -1 && lhs.template as<int64_t>() == (std::numeric_limits<int64_t>::min)()) // overflow
+                {
+                    return Json::null();
+                }
                 return Json(((lhs.template as<int64_t>() / rhs.template as<int64_t>())), semantic_tag::none);
             }
             if (lhs.is_uint64() && rhs.is_uint64())
             {
+                if (rhs.template as<uint64_t>() == 0) // integer division by zero is undefined behaviour
+                {
+                    return Json::null();
+                }
                 return Json((lhs.template as<uint64_t>() / rhs.template as<uint64_t>()), semantic_tag::none);
             }
             return Json((lhs.as_double() / rhs.as_double()), semantic_tag::none);
@@ -1060,10 +1072,22 @@ namespace detail {
             }
             if (lhs.is_int64() && rhs.is_int64())
             {
+                if (rhs.template as<int64_t>() == 0) // integer division by zero is undefined behaviour
+                {
+                    return Json::null();
+                }
+                if (rhs.template as<int64_t>() == -1 && lhs.template as<int64_t>() == (std::numeric_limits<int64_t>::min)()) // overflow
+                {
+                    return Json::null();
+                }
                 return Json(((lhs.template as<int64_t>() % rhs.template as<int64_t>())), semantic_tag::none);
             }
             if (lhs.is_uint64() && rhs.is_uint64())
             {
+                if (rhs.template as<uint64_t>() == 0) // integer division by zero is undefined behaviour
+                {
+                    return Json::null();
+                }
                 return Json((lhs.template as<uint64_t>() % rhs.template as<uint64_t>()), semantic_tag::none);
             }
             return Json(fmod(lhs.as_double(), rhs.as_double()), semantic_tag::none);
